@@ -7,6 +7,8 @@ COMMON_ASSUME = [
 ]
 
 TIERS = {
+    "C10": {"quick": {"runs": 200, "budget_s": 100, "run_timeout_s": 500},
+            "thorough": {"runs": 3000, "budget_s": 1500, "run_timeout_s": 1200}},
     "C09": {"quick": {"runs": 200, "budget_s": 100, "run_timeout_s": 400},
             "thorough": {"runs": 3000, "budget_s": 1500, "run_timeout_s": 900}},
     "C20": {"quick": {"runs": 300, "budget_s": 80, "run_timeout_s": 300},
@@ -51,6 +53,20 @@ TM_RULE = ("case = (generated program, argument, seeded history of trace transit
            "or a fault fired")
 
 META = {
+    "C10": {"LEVEL": "exploration",
+            "RULE": "case = one of: machine (generated chain model, N in 1..4, seeded history of init / extend / resample / rejuvenate / change "
+                    "under reference-sampled scripts); tree (discrete HMM step model with feedback, N in 1..3, T <= 3, default or custom "
+                    "proposals, categorical resampling at seeded steps: complete outcome tree); stat (rejuvenation_smc end-to-end over key "
+                    "batches); distinct = distinct (mode, model shape / sizes, move history); non-trivial = N >= 2 or tree/stat mode",
+            "COMPONENTS": {"real": ["genjax.inference.smc init/extend/resample/rejuvenate/change/rejuvenation_smc/ParticleCollection",
+                                    "genjax.inference.mcmc.mh", "genjax.core generate/merge", "genjax.extras.discrete_hmm", "genjax.pjax.modular_vmap"],
+                           "stub": ["machine/tree: Seed key splitting and leaf samplers (SCRIPTED)", "sim/jaxcompat.py"], "regimes": "SCRIPTED + REAL"},
+            "ASSUMPTIONS": COMMON_ASSUME + ["trees use categorical resampling only (the systematic offset is a threshold consumer whose cells are "
+                                            "covered by C12's sweep); rejuvenation inside trees is not enumerated: its weight-invariance is checked "
+                                            "per script and its unbiasedness end-to-end by the REAL two-stage test"],
+            "REQUIRED_PROBES": {"quick": ["mode_machine", "mode_tree", "tree_complete", "move_extend", "move_resample"],
+                                "thorough": ["mode_machine", "mode_tree", "mode_stat", "tree_complete", "move_extend", "move_resample",
+                                             "move_rejuvenate", "move_change", "proposal_custom", "stat_runs"]}},
     "C09": {"LEVEL": "exploration",
             "RULE": "case = (generated target program, observed address subset, selection expression, kernel in {mh, mala, hmc}, step size, "
                     "leapfrog count, scripted noise / momentum / regenerate outcomes, accept uniform placed at min(1, alpha_ref) x (1 -/+ 1.5%) "
@@ -226,6 +242,8 @@ META = {
 
 DST = "deterministic simulation with fault injection"
 CLAIMS = {
+    "C10": dict(text="SMC pipelines as histories of moves: per-particle weight identity against the reference along the ancestry after every move; complete outcome trees give E[exp(lml)] and E[exp(lml)*estimate(h)] exactly and compare them with brute-force evidence / posterior integrals after every step; rejuvenation_smc end-to-end by a two-stage test",
+                ref="DESIGN.md 4 C10", note="tiny discrete models for trees (K=M=2, N<=3, T<=3); chain models for the machine", technique=DST + " (SCRIPTED randomness seam: move histories + outcome-tree explorer; REAL key batches)"),
     "C09": dict(text="every internal draw of a kernel step is scripted: proposals compared with the reference proposal formulas, per-coordinate noise counted, the accept uniform placed either side of the reference threshold, rejected moves bit-identical; complete outcome trees give the exact mh transition matrix, checked for detailed balance and invariance against the reference posterior",
                 ref="DESIGN.md 4 C09", note="float32 vs float64-FD tolerance 5e-3; thresholds at +-1.5%; small discrete state spaces for trees", technique=DST + " (SCRIPTED randomness seam with adversarially placed accept thresholds + outcome-tree transition matrix)"),
     "C20": dict(text="backward sampling and the step models are decided through the randomness seam: complete outcome trees give the exact law of the sampled state sequence / simulated joint, compared with brute-force enumeration and dense-Gaussian conditioning; filter/smoother are op-level comparisons against the same references",
